@@ -25,7 +25,7 @@ CLAIMED['C08'] = dict(
          'enable on/off) is enumerated completely, exceptional exits included; the table of (hook sequence, exit, result, cursor) must satisfy H1-H7 of DESIGN.md 4.3. '
          'Every hook of every shipped control wrapper (remove_first_state, remove_last_states, shuffle_states, state_control) must forward exactly once with the documented '
          'state permutation. The shipped stateful controls keep their rule stack in step (coverage: count own and branch counters once each, branch under the parent, push after / pop before counting; trace: one push / one pop). '
-         'state_control additionally tells its state of the end of an attempt before, and of the start after, the wrapped hook (which may throw outside the unwind guard). Opaque user rules with the simpler match signatures are part of the dispatch universe. '
+         'When a hook itself throws (must_if raises from failure) no unwind follows for that attempt. state_control additionally tells its state of the end of an attempt before, and of the start after, the wrapped hook (which may throw outside the unwind guard). Opaque user rules with the simpler match signatures are part of the dispatch universe. '
          'The balance start = success + failure + unwind then follows for every rule and branch of every grammar and input. One recorded finding (D11).',
     ref='4.3, 5/C08')
 
@@ -33,7 +33,7 @@ CLAIMED['C13'] = dict(
     technique='path enumeration of the switching rules with frame comparison at every rule boundary (abstract interpretation; typestate of the state object)',
     text='FRAME + SCOPE (DESIGN.md 4.2): for state, change_state(s), change_action(_and_state(s)), change_control, add_state, instantiate, enable/disable(_action), '
          'action, control and normal::match every path of every instantiation is enumerated; each rule-boundary call must replace exactly the documented frame '
-         'parameter; the new state is an automatic local, is what the sub-rule sees, and receives success exactly once iff the rule matched (and actions are enabled); a control switch enters the attached rule through the new control\'s match (decided where the new control declares one). '
+         'parameter; the new state is an automatic local, is what the sub-rule sees, and receives success exactly once iff the rule matched (and actions are enabled); a control switch enters the attached rule through the new control\'s match (decided where the new control declares one); rules attempt their sub-rules through Control< Rule >::match, never the free match<>() (that would skip an action class\' or control\'s own match), and hand them the control of the run (combinators instantiated under a second control). '
          'Holds for all grammars and inputs by induction over rule nesting, which the test-suite cannot enumerate.',
     ref='4.2, 5/C13')
 
@@ -60,7 +60,7 @@ CLAIMED['C07'] = dict(
          'preceded by an adequate availability request, which is what lets buffer_input::require() see every byte a memory input exposes; (b) rule code only calls input members that '
          'both families provide (resolved callees; documented memory-only places listed with reasons); (c) buffer_input::require/discard/size/empty/end/bump*: the reader gets the current '
          'm_end and a length bounded by the current free space, require() only exits with enough data / end of input / overflow_error, discard() preserves window and counters; (d) the '
-         'derived input classes add constructors only; (e) the stdio reader and the mmap holder yield an empty input for a zero-length file, evaluated under the ISO C / POSIX contracts of fread and mmap; (f) every single-unit, string, end-of-line and counted rule gives the same partition of inputs whether size( a ) answers min( remaining, a ) or everything there is (least vs most buffering). '
+         'derived input classes add constructors only; (e) the stdio reader and the mmap holder yield an empty input for a zero-length file, evaluated under the ISO C / POSIX contracts of fread and mmap; require() is also enumerated on every concrete window of 1..4 bytes (overflow exactly when the request does not fit, the reader never asked for 0 bytes); (f) every single-unit, string, end-of-line and counted rule and the raw-string scanners give the same partition of inputs whether size( a ) answers min( remaining, a ) or everything there is (least vs most buffering). '
          'Breaking any of these breaks input-class independence for some reader schedule or file the tests never produce. OS/stream behaviour beyond those two contracts is out of reach of this technique.',
     ref='5/C07, 4.4')
 
@@ -100,7 +100,7 @@ CLAIMED['C05'] = dict(
          'argument) with the custom or default message and raise_nested really nests; what() = position + ": " + message; the only try/catch sites in all 194 headers are the try_catch '
          'rules, control_action and parse_nested, so every other combinator propagates exceptions unchanged; each try_catch rule catches exactly the type it names; noexcept code never raises; '
          'the default message names the complete rule type: demangle< T >() on witness types whose names contain the characters its implementations search for, as static_assert witnesses type-checked by g++ (the compiler of the build) and clang; '
-         'no library function keeps mutable static or thread_local local state (so what() is a function of the arguments of this error, not of earlier ones).',
+         'no library function keeps mutable static or thread_local local state (so what() is a function of the arguments of this error, not of earlier ones); message() and position_string() take what() apart by stored lengths, never by searching for a separator.',
     ref='5/C05')
 
 CLAIMED['C20'] = dict(
@@ -139,7 +139,7 @@ CLAIMED['C12'] = dict(
     text='Claims builder discipline and selection, not the whole-run statement: every instantiated handler hook pushes/pops exactly one frame, attaches only in success after the pop by appending to the '
          'frame below (any other mutation of a frame\'s children is reported), and stamps the span with the input positions; for witness grammars (unselected chains of depth 1..12 above a selected rule - beyond the leaf-optimisation depth of 8 -, recursion, '
          'store_all with internal sequences) the handler chosen for each rule is selected iff control is enabled and the selector selects it, and the frame-less leaf optimisation is only used when no '
-         'selected rule is reachable below; parse() returns the root iff the plain parse succeeded; transformers as documented; every rule that the match() of a rule attempts is found from it through subs_t (what selection and the leaf optimisation read; one frozen exception, raw_string); the hooks forwarded to the wrapped control are balanced per handler (unwind included when the control has it); the function Control< Rule >::match resolves to for a handler '
+         'selected rule is reachable below; parse() returns the root iff the plain parse succeeded; transformers as documented; has_content() is true for every matched node (empty matches included) and false exactly after remove_content(); every rule that the match() of a rule attempts is found from it through subs_t (what selection and the leaf optimisation read; one frozen exception, raw_string); the hooks forwarded to the wrapped control are balanced per handler (unwind included when the control has it); the function Control< Rule >::match resolves to for a handler '
          'enters every attempt through the handler\'s start (enumerated like the central dispatch). Together with C08 this excludes leftover nodes of backtracked or aborted branches.',
     ref='5/C12')
 
@@ -172,7 +172,7 @@ CLAIMED['C06'] = dict(
     technique='who-may-write inventory of the cursor + exact set evaluation of the bump primitives + justification of every position-shortcut call site by path-sensitive byte facts (exact for atoms/strings/eol rules over five policies, class strings for scanners) + forwarding/lazy-recomputation structure',
     text='Decides the structural decomposition of the statement, not a simulation of parsing runs: (1) only the bump primitives, constructors, restart/discard and restores of a cursor saved by rewind_save() write a cursor, and no library rule calls the counter-resetting restart; (2) internal::bump is the per-byte definition, '
          'bump_in_this_line / bump_to_next_line are what their names say; (3) every call of a shortcut in the headers (closed table of call sites, all covered) happens only on paths where the skipped bytes are known not to be / to end with the '
-         'line-ending character of the input; (4) by evaluation with symbolic counters: after in.bump*( n ) the cursor is what the primitive of that name gives with Eol::ch, lazy position( it ) is the definition applied to the begin iterator, byte() includes the initial byte; sub-inputs inherit the position; every constructor of the inputs and of the iterator (delegation followed) stores the counters it is given; combinators that advance the cursor themselves are covered by (3) with their sub-rules as oracles. '
+         'line-ending character of the input; (4) by evaluation with symbolic counters: after in.bump*( n ) the cursor is what the primitive of that name gives with Eol::ch, lazy position( it ) is the definition applied to the begin iterator, byte() includes the initial byte; sub-inputs inherit the position; every constructor of the inputs and of the iterator (delegation followed) and restart( byte, line, column ) store the counters they are given; buffer_input::discard writes the data pointer only; combinators that advance the cursor themselves are covered by (3) with their sub-rules as oracles. '
          'From these, eager == lazy == the documented function of the consumed prefix follows for all byte-oriented and UTF-8 rules. Known finding D08 (cr_crlf) is reported by (3).',
     ref='5/C06')
 
